@@ -112,7 +112,7 @@ class DtmfDescriptor(SpliceDescriptor):
     }
 
     @classmethod
-    def parse(cls, bit_reader, kwargs):
+    def parse_fields(cls, bit_reader, kwargs):
         bit_reader.read(8, 'preroll')
         bit_reader.read(3, 'dtmf_count')
         bit_reader.get(5, 'reserved')
@@ -127,7 +127,7 @@ class DtmfDescriptor(SpliceDescriptor):
         w.write(8, 'preroll')
         w.write(3, 'dtmf_count')
         w.write(5, 'reserved', value=0x1F)
-        w.write_bytes(self.chars)
+        w.write_bytes('chars', value=self.chars.encode('ascii'))
 
 
 class SegmentationTypeId:
